@@ -5,6 +5,7 @@ import (
 	"fmt"
 	"math/big"
 	"sort"
+	"strings"
 
 	"github.com/btcsuite/btcd/txscript"
 	"github.com/btcsuite/btcd/wire"
@@ -27,6 +28,7 @@ type DepositFact struct {
 	Version   uint32
 	Key       *relayertypes.PublicKey
 	KeyIdx    int
+	KeySch    bool   // own-key deposits: the key is used as a Schnorr key
 	Height    uint64 // 0 while unmined
 	Index     int
 	Submitted bool
@@ -59,15 +61,16 @@ type mineArgs struct {
 }
 
 type newDepositArgs struct {
-	User      int    `json:"user"`
-	Value     uint64 `json:"value"`
-	Version   int    `json:"version"`
-	Coinbase  bool   `json:"coinbase,omitempty"`
-	Node      int    `json:"node"`
-	KeyIdx    int    `json:"key_idx"` // -1: whatever the node hands out
-	Extra     int    `json:"extra_outputs,omitempty"`
-	ScriptMut string `json:"script_mut,omitempty"` // the user pays a near miss of the handed-out script
-	Repeat    int    `json:"repeat,omitempty"`     // that many further deposits of other users in the same step (burst)
+	User       int    `json:"user"`
+	Value      uint64 `json:"value"`
+	Version    int    `json:"version"`
+	Coinbase   bool   `json:"coinbase,omitempty"`
+	Node       int    `json:"node"`
+	KeyIdx     int    `json:"key_idx"` // -1: whatever the node hands out
+	Extra      int    `json:"extra_outputs,omitempty"`
+	ScriptMut  string `json:"script_mut,omitempty"`  // the user pays a near miss of the handed-out script
+	KeySchnorr bool   `json:"key_schnorr,omitempty"` // with key_idx >= 0: the key is used as a Schnorr key
+	Repeat     int    `json:"repeat,omitempty"`      // that many further deposits of other users in the same step (burst)
 }
 
 type proveArgs struct {
@@ -88,6 +91,25 @@ func (w *World) honestProposer() *RelMember {
 
 // sendMsgs wraps and submits messages from the current proposer (or another signer).
 func (w *World) sendMsgs(msgs []sdk.Msg, truth *VoteTruth, label string, honest bool, signer *RelMember, opt TxOpts) string {
+	if w.Bundle != nil && signer == nil && opt.plain() {
+		// collected into one multi-message transaction (rel.bundle)
+		b := w.Bundle
+		for _, m := range msgs {
+			var t *VoteTruth
+			if truth != nil {
+				c := *truth
+				c.Honest = false // its fate depends on its neighbours in the transaction
+				t = &c
+			}
+			b.Truths = append(b.Truths, t)
+			if _, ok := votedMsg(m); ok && honest {
+				w.PendingVoted++ // the next voted message of the bundle is signed for the next sequence
+			}
+		}
+		b.Msgs = append(b.Msgs, msgs...)
+		b.Labels = append(b.Labels, label)
+		return "bundled"
+	}
 	if signer == nil {
 		signer = w.honestProposer()
 	}
@@ -99,6 +121,62 @@ func (w *World) sendMsgs(msgs []sdk.Msg, truth *VoteTruth, label string, honest 
 		return "skip:build-error"
 	}
 	return w.submit(raw, msgs, truth, label, honest)
+}
+
+// txBundle collects the messages of the sub-steps of a rel.bundle step.
+type txBundle struct {
+	Msgs   []sdk.Msg
+	Truths []*VoteTruth
+	Labels []string
+}
+
+// bundleArgs: several relayer steps whose messages travel in ONE transaction: either all of them
+// take effect or none does (nothing of an earlier message may survive the failure of a later one,
+// in the stores or anywhere else). simulate_on >= 0: that replica is first asked to simulate the
+// transaction (what the node's Simulate service does), which must leave no trace either.
+type bundleArgs struct {
+	Steps      []Step `json:"steps"`
+	SimulateOn int    `json:"simulate_on"`
+}
+
+func (w *World) stepBundle(a bundleArgs, r *Rand) string {
+	if w.Bundle != nil {
+		return "skip:nested"
+	}
+	signer := w.honestProposer()
+	if signer == nil {
+		return "skip:no-proposer-identity"
+	}
+	w.Bundle = &txBundle{}
+	for _, sub := range a.Steps {
+		switch sub.K {
+		case "rel.hashes", "rel.deposit", "rel.baddeposit", "rel.pubkey", "rel.consolidation", "rel.group", "rel.withdraw", "rel.badwithdraw":
+			w.applyRelayerStep(sub)
+		}
+	}
+	b := w.Bundle
+	w.Bundle = nil
+	if len(b.Msgs) == 0 {
+		return "skip:empty-bundle"
+	}
+	raw, err := w.proposerTx(signer, b.Msgs, TxOpts{GasLimit: 50_000_000})
+	if err != nil {
+		return "skip:build-error"
+	}
+	if len(b.Msgs) > 1 {
+		w.probe("multi-message-transaction")
+	}
+	if a.SimulateOn >= 0 && len(w.Nodes) > 0 {
+		n := w.Nodes[a.SimulateOn%len(w.Nodes)]
+		if n.Alive && n.Height == w.Cmt.Height && n.Height > 0 {
+			out := n.run("simulate", func() { n.App.Simulate(raw) })
+			if out.Panic != nil {
+				w.violate("C19", "simulate-panic", "simulate", "Simulate panicked on node %d: %v\n%s", n.ID, out.Panic, out.Stack)
+			}
+			w.probe("transaction-simulated-on-one-replica")
+		}
+	}
+	return "bundle:" + w.submitMulti(raw, b.Msgs, b.Truths, "bundle/"+strings.Join(b.Labels, "+"))
 }
 
 func (w *World) currentBtcKey() (*relayertypes.PublicKey, int) {
@@ -156,13 +234,19 @@ func (w *World) applyRelayerStep(st Step) (string, bool) {
 	}
 	if w.view() == nil {
 		switch st.K {
-		case "rel.hashes", "rel.deposit", "rel.baddeposit", "rel.pubkey", "rel.consolidation", "rel.group", "rel.forged", "rel.replay", "rel.withdraw", "rel.badwithdraw", "el.bridge", "el.params":
+		case "rel.hashes", "rel.deposit", "rel.baddeposit", "rel.pubkey", "rel.consolidation", "rel.group", "rel.forged", "rel.replay", "rel.withdraw", "rel.badwithdraw", "rel.bundle", "el.bridge", "el.params":
 			return "skip:no-state-yet", true
 		}
 		return "", false
 	}
 	r := newRand(st.S, "apply")
 	switch st.K {
+	case "rel.bundle":
+		var a bundleArgs
+		if !jsonArgs(st, &a) {
+			return "bad-args", true
+		}
+		return w.stepBundle(a, r), true
 	case "rel.hashes":
 		var a hashesArgs
 		if !jsonArgs(st, &a) {
@@ -302,6 +386,28 @@ func (w *World) stepNewDeposit(a newDepositArgs, r *Rand) string {
 	if a.Version == 1 || (a.Version < 0 && w.Cfg.DepositV1) {
 		version = 1
 	}
+	if a.KeyIdx >= 0 {
+		// the user derives the address for a relayer key of its own choosing (one that is about to be
+		// registered, or never will be): creditable only once that key is registered by vote
+		if a.KeySchnorr {
+			version = 0
+		}
+		key := relayerPubKey(w.btcKey(a.KeyIdx), a.KeySchnorr)
+		out0, out1, ok := refDepositScripts(version, key, []byte(w.Cfg.Magic), evm.Bytes())
+		if !ok || a.Value == 0 {
+			return "skip:no-script"
+		}
+		outs := []*wire.TxOut{{Value: int64(a.Value), PkScript: out0}}
+		if out1 != nil {
+			outs = append(outs, &wire.TxOut{Value: 0, PkScript: out1})
+		}
+		d := &DepositFact{ID: len(w.Btc.Deposits), Vout: 0, EVM: evm, Value: a.Value, Version: version, Key: key, KeyIdx: a.KeyIdx, KeySch: a.KeySchnorr, HandedBy: -1}
+		d.Tx = w.Btc.spend(outs, "deposit")
+		w.Btc.Pending = append(w.Btc.Pending, d.Tx)
+		w.Btc.Deposits = append(w.Btc.Deposits, d)
+		w.probe("deposit-to-self-derived-address")
+		return "created:own-key"
+	}
 	req := &bitcointypes.QueryDepositAddress{Version: version, EvmAddress: evm.Hex()}
 	resp := &bitcointypes.QueryDepositAddressResponse{}
 	if err := n.query("/goat.bitcoin.v1.Query/DepositAddress", req, resp); err != nil {
@@ -420,7 +526,7 @@ func (w *World) stepProveDeposits(a proveArgs, r *Rand) string {
 
 var badDepositVariants = []string{"wrong-position", "alias-position", "truncated-path", "extended-path", "permuted-path", "inner-node-as-tx", "other-block-proof",
 	"unvoted-header", "fake-header", "dup-in-batch", "dup-alias-in-batch", "alias-last-position", "dup-across", "wrong-evm", "unregistered-key", "other-registered-key", "wrong-version", "v1-other-magic", "vout-oob", "vout-other",
-	"oversize", "undersize", "dup-header-heights", "bitflip-tx", "nil-key", "short-evm", "no-headers", "many-headers", "zero-position-claim"}
+	"oversize", "undersize", "dup-header-heights", "bitflip-tx", "nil-key", "short-evm", "no-headers", "many-headers", "zero-position-claim", "own-key"}
 
 // mutateDeposits applies one adversarial variant to an otherwise well-formed batch.
 func (w *World) mutateDeposits(msg *bitcointypes.MsgNewDeposits, facts []*DepositFact, a proveArgs, r *Rand) {
@@ -786,8 +892,14 @@ func (w *World) stepReplay(a replayArgs, r *Rand) string {
 	st := sent[(len(sent)-1-a.Back%len(sent)+len(sent))%len(sent)]
 	switch a.Mode {
 	case "verbatim":
+		if st.Truths != nil {
+			return w.submitMulti(st.Raw, st.Msgs, st.Truths, "replay-verbatim/"+st.Label)
+		}
 		return w.submit(st.Raw, st.Msgs, st.Truth, "replay-verbatim/"+st.Label, false)
 	default:
+		if st.Truths != nil {
+			return w.submitMulti(st.Raw, st.Msgs, st.Truths, "replay-verbatim/"+st.Label)
+		}
 		// the old messages (old votes) under a fresh transaction signature of the current proposer
 		cv := w.chainView()
 		if cv == nil || cv.Proposer == nil {
@@ -970,11 +1082,13 @@ func uniqueInts(xs []int) []int {
 func (w *World) genRelayerStep(kind string, r *Rand, sub uint64) (Step, bool) {
 	if w.view() == nil && kind != "btc.mine" {
 		switch kind {
-		case "rel.hashes", "rel.deposit", "rel.baddeposit", "rel.pubkey", "rel.consolidation", "rel.group", "rel.forged", "rel.replay", "rel.withdraw", "rel.badwithdraw", "el.bridge", "el.params":
+		case "rel.hashes", "rel.deposit", "rel.baddeposit", "rel.pubkey", "rel.consolidation", "rel.group", "rel.forged", "rel.replay", "rel.withdraw", "rel.badwithdraw", "rel.bundle", "el.bridge", "el.params":
 			return mkStep("block", w.genBlock(r), sub), true
 		}
 	}
 	switch kind {
+	case "rel.bundle":
+		return w.genBundleStep(r, sub), true
 	case "btc.mine":
 		return mkStep("btc.mine", mineArgs{N: 1 + r.Intn(3) + r.Intn(2)*r.Intn(30)}, sub), true
 	case "rel.hashes":
@@ -1027,6 +1141,51 @@ func (w *World) genRelayerStep(kind string, r *Rand, sub uint64) (Step, bool) {
 		return mkStep("el.ops", w.genParamOps(r), sub), true
 	}
 	return Step{}, false
+}
+
+// genBundleStep: 1-3 relayer steps in one transaction, sometimes simulated on one replica first.
+func (w *World) genBundleStep(r *Rand, sub uint64) Step {
+	pool := []string{"rel.hashes", "rel.deposit", "rel.deposit", "rel.baddeposit", "rel.pubkey", "rel.pubkey", "rel.consolidation", "rel.group", "rel.withdraw", "rel.badwithdraw"}
+	n := 1 + r.Intn(3)
+	a := bundleArgs{SimulateOn: -1}
+	if r.Chance(0.5) {
+		a.SimulateOn = r.Intn(maxInt(1, w.Cfg.Nodes))
+	}
+	if r.Chance(0.25) {
+		// a key registration followed by a deposit to that very key, then possibly something that fails
+		idx := len(w.BtcKeys) - r.Intn(2)
+		if idx < 0 {
+			idx = 0
+		}
+		sch := r.Chance(0.4)
+		var own []int
+		for _, d := range w.Btc.Deposits {
+			if d.HandedBy == -1 && d.Height != 0 && d.Height <= w.votedTip() && !d.Submitted && !w.M.Btc.Keys[string(relayertypes.EncodePublicKey(d.Key))] {
+				own = append(own, d.ID)
+			}
+		}
+		if len(own) > 0 {
+			d := w.Btc.Deposits[pick(r, own)]
+			idx, sch = d.KeyIdx, d.KeySch
+			own = []int{d.ID}
+		}
+		a.Steps = append(a.Steps, mkStep("rel.pubkey", pubkeyArgs{KeyIdx: idx, Schnorr: sch}, r.Uint64()))
+		if len(own) > 0 {
+			ids := []int{own[0]}
+			if r.Chance(0.4) {
+				ids = append(ids, ids[0]) // the repeat fails the transaction after the first item verified
+			}
+			a.Steps = append(a.Steps, mkStep("rel.baddeposit", proveArgs{IDs: ids, Variant: "dup-across"}, r.Uint64()))
+		}
+		n = r.Intn(2)
+	}
+	for i := 0; i < n; i++ {
+		st, ok := w.genRelayerStep(pick(r, pool), r, r.Uint64())
+		if ok && strings.HasPrefix(st.K, "rel.") && st.K != "rel.bundle" && st.K != "rel.replay" {
+			a.Steps = append(a.Steps, st)
+		}
+	}
+	return mkStep("rel.bundle", a, sub)
 }
 
 func (w *World) genGroupStep(r *Rand, sub uint64) Step {
@@ -1088,13 +1247,18 @@ func (w *World) genGroupStep(r *Rand, sub uint64) Step {
 func (w *World) genDepositStep(r *Rand, sub uint64, bad bool) Step {
 	b := w.Btc
 	voted := w.votedTip()
-	var provable, submitted, unmined, unvoted []int
+	var provable, submitted, unmined, unvoted, ownKey []int
 	for _, d := range b.Deposits {
 		switch {
 		case d.Height == 0:
 			unmined = append(unmined, d.ID)
 		case d.Height > voted:
 			unvoted = append(unvoted, d.ID)
+		case d.HandedBy == -1 && !d.Submitted && !w.M.Btc.Keys[string(relayertypes.EncodePublicKey(d.Key))]:
+			// paid to an address the user derived for a key that is not registered (yet): an honest
+			// relayer does not claim it; the adversary does ("own-key"), alone or after a failed
+			// registration in the same transaction (rel.bundle)
+			ownKey = append(ownKey, d.ID)
 		case d.Submitted:
 			submitted = append(submitted, d.ID)
 		default:
@@ -1106,6 +1270,16 @@ func (w *World) genDepositStep(r *Rand, sub uint64, bad bool) Step {
 		variant := pick(r, badDepositVariants)
 		if variant == "unvoted-header" && len(unvoted) > 0 {
 			pool = unvoted
+		}
+		if len(ownKey) > 0 && r.Chance(0.2) {
+			variant = "own-key"
+		}
+		if variant == "own-key" {
+			if len(ownKey) == 0 {
+				variant = pick(r, badDepositVariants[:len(badDepositVariants)-1])
+			} else {
+				pool = ownKey
+			}
 		}
 		if variant == "dup-in-batch" || variant == "dup-alias-in-batch" || variant == "alias-last-position" {
 			// a repeat only tests the once-only rule when the output has not been credited yet;
@@ -1146,6 +1320,19 @@ func (w *World) genDepositStep(r *Rand, sub uint64, bad bool) Step {
 	if bad || (!w.Cfg.FaultFree && r.Chance(0.15)) {
 		val = pick(r, []uint64{546, 999, 1000, 1001, w.Cfg.MinDeposit - 1, 0})
 	}
+	if cur := w.view(); cur != nil && !bad && r.Chance(0.5) {
+		// under a heavy tax rate: values just above a multiple of the 10000-satoshi tax unit, where a
+		// formula that rounds the number of units up would take more than the deposit is worth
+		if p := cur.Bitcoin.Params; p.DepositTaxRate >= 2500 {
+			base := p.MinDepositAmount
+			if base < 10000 {
+				base = 10000
+			}
+			base = (base + 9999) / 10000 * 10000
+			val = base + uint64(r.Intn(4))*10000 + uint64(1+r.Intn(2))
+			w.probe("deposit-just-above-a-tax-unit-under-heavy-rate")
+		}
+	}
 	ver := -1
 	if !w.Cfg.FaultFree && r.Chance(0.1) {
 		ver = r.Intn(2)
@@ -1158,7 +1345,14 @@ func (w *World) genDepositStep(r *Rand, sub uint64, bad bool) Step {
 	if w.Cfg.Bursts && mut == "" && r.Chance(0.12) {
 		rep = 8 + r.Intn(16) // more than the 8 deposits handed over per block
 	}
-	return mkStep("btc.deposit", newDepositArgs{User: r.Intn(len(w.Users)), Value: val, Version: ver, Coinbase: r.Chance(0.12), Node: r.Intn(w.Cfg.Nodes), KeyIdx: -1, Extra: r.Intn(3), ScriptMut: mut, Repeat: rep}, sub)
+	keyIdx, keySch := -1, false
+	if !w.Cfg.FaultFree && mut == "" && rep == 0 && r.Chance(0.10) {
+		keyIdx, keySch = len(w.BtcKeys)-r.Intn(2), r.Chance(0.4) // the newest generated key or the next one
+		if keyIdx < 0 {
+			keyIdx = 0
+		}
+	}
+	return mkStep("btc.deposit", newDepositArgs{User: r.Intn(len(w.Users)), Value: val, Version: ver, Coinbase: r.Chance(0.12) && keyIdx < 0, Node: r.Intn(w.Cfg.Nodes), KeyIdx: keyIdx, KeySchnorr: keySch, Extra: r.Intn(3), ScriptMut: mut, Repeat: rep}, sub)
 }
 
 func (w *World) genParamOps(r *Rand) []*ELOp {
@@ -1166,7 +1360,15 @@ func (w *World) genParamOps(r *Rand) []*ELOp {
 	var ops []*ELOp
 	switch r.Intn(3) {
 	case 0:
-		ops = append(ops, &ELOp{Kind: "tax", U1: pick(r, b), U2: pick(r, b)})
+		rate, cap := pick(r, b), pick(r, b)
+		switch r.Intn(4) {
+		case 0: // a legal but confiscatory rate with a cap that does not bind
+			rate, cap = pick(r, []uint64{5000, 7500, 9000, 9998, 9999}), pick(r, []uint64{0, 0, 1 << 63, ^uint64(0), 100000000})
+		case 1: // a small rate with a cap near the top of the 64-bit range (cap/rate arithmetic)
+			rate = pick(r, []uint64{1, 2, 3, 4, 8, 16, 9999})
+			cap = pick(r, []uint64{^uint64(0), ^uint64(0) - 1, 1 << 63, 1<<63 - 1, 3689348814741910, ^uint64(0) / 3, 18444899399302180045, ^uint64(0)/10000 + 1})
+		}
+		ops = append(ops, &ELOp{Kind: "tax", U1: rate, U2: cap})
 	case 1:
 		ops = append(ops, &ELOp{Kind: "confirm", U1: pick(r, b)})
 	case 2:
